@@ -64,7 +64,8 @@ def run(ctx):
         n = int(os.environ["VERIF_C13_N"])
     if ctx["widen"]:
         n *= 3
-    cmd = [binp, "-seed", str(ctx["seed"]), "-tier", ctx["tier"], "-out", out, "-n", str(n), "-repo", vlib.REPO]
+    cmd = [binp, "-seed", str(ctx["seed"]), "-tier", ctx["tier"], "-out", out, "-n", str(n), "-repo", vlib.REPO,
+           "-regress", os.path.join(vlib.VERIF, "corpus", "C13")]
     if ctx["replay"]:
         cmd += ["-replay", ctx["replay"]]
     if os.environ.get("VERIF_C13_REPAIRS") and vlib.REPO != "/repo":
